@@ -303,12 +303,17 @@ class Check(common.Check):
         ops = []
         for _ in range(rng.randint(3, 40)):
             r = rng.random()
-            if r < 0.03:
+            if r < 0.02:
+                # uncached buffers, freed while no cached buffer is alive
+                ops.append('bufnc 1 0')
+                if rng.random() < 0.7:
+                    ops.append(f'free 2 {rng.randrange(16)}')
+            elif r < 0.04:
                 k = rng.randrange(2)
                 ops.append(f'{["cbus", "abus"][k]} {rng.randint(1, 4)} 0')
                 ops.append(f'derive {k} {rng.randrange(16)}')
                 ops += [f'{["cbus", "abus"][k]} {rng.randint(1, 4)} 0' for _ in range(rng.randint(1, 3))]
-            elif r < 0.06:
+            elif r < 0.07:
                 ops.append('refuse ' + rng.choice(['sendlist', 'loadlist', 'noframes', 'abus', 'cbus']))
             elif r < 0.12:
                 # free_all with multi-number ranges alive, then allocations that need those numbers
@@ -378,7 +383,7 @@ class Check(common.Check):
                                  'reserved_audio_buses', 'reserved_buffers', 'client_id',
                                  'initial_node_id')]
         lines = ['partnew ' + ' '.join(str(v) for v in vals)]
-        slot = {'cbus': 0, 'abus': 1, 'buf': 2}
+        slot = {'cbus': 0, 'abus': 1, 'buf': 2, 'bufnc': 2}
         for op in case['ops']:
             w = op.split()
             if w[0] in slot:
@@ -411,10 +416,10 @@ class Check(common.Check):
         kinds = ['ControlBus', 'AudioBus', 'Buffer']
         freed = [0, 0, 0]
         nlive = [0, 0, 0]
-        slot_of = {'cbus': 0, 'abus': 1, 'buf': 2}
+        slot_of = {'cbus': 0, 'abus': 1, 'buf': 2, 'bufnc': 2}
         for op in case['ops']:
             w = op.split()
-            if w[0] in ('abus', 'cbus', 'buf'):
+            if w[0] in ('abus', 'cbus', 'buf', 'bufnc'):
                 next(it, None)
                 l = next(it, 'missing')
                 m = re.match(r'alloc (\d+) -> (\S+)', l)
@@ -618,6 +623,11 @@ class Check(common.Check):
         node_ids = []
         for i, (line, o) in enumerate(zip(case['ops'], out[4:])):
             w, ow = line.split(), o.split()
+            if 'RAISED:' in o:
+                return {'what': f'op #{i} `{line}`: free() of the object owning {ow[2]} raised {ow[3][7:]}; the number '
+                                f'was not returned', 'signature': 'srv:free-raises', 'index': i}
+            if w[0] == 'bufnc':
+                w = ['buf'] + w[1:]
             if w[0] in live:
                 n = int(w[1])
                 lo, hi, total = parts[w[0]]
